@@ -1,6 +1,7 @@
 package props
 
 import (
+	"bytes"
 	"encoding/json"
 	"fmt"
 	"os"
@@ -34,7 +35,19 @@ func c19Specs() map[string][]byte {
 	op2.Params = []*spec.Param{{Name: "id", In: "path", Required: true, Schema: spec.TF("integer", "int64")}}
 	s2.Comp.Schemas = []spec.NamedSchema{{Name: "Other", Schema: spec.Arr(spec.T("string"))}}
 	op2.Body = &spec.Body{Schema: spec.RefTo("Other"), Required: true}
-	return map[string][]byte{"S0": s0.YAML(), "S1": s1.YAML(), "S2": s2.YAML()}
+	// S3: a components section without anything rendered into components.go (security scheme and parameter only)
+	s3, _, op3 := cells.Base()
+	s3.Comp.Security = []spec.SecScheme{{Key: "b", Type: "http", Scheme: "bearer"}}
+	s3.Comp.Params = []spec.NamedParam{{Name: "Q", Param: &spec.Param{Name: "q", In: "query", Schema: spec.T("string")}}}
+	op3.Params = []*spec.Param{{Ref: "Q"}}
+	op3.Security = &[]spec.SecReq{{"b"}}
+	op3.Responses = []*spec.Response{{Status: "200", Desc: "r", Schema: spec.Obj(spec.P("a", spec.T("string")))}}
+	// S1w: the document S1 in another physical form (re-indented: only white space differs)
+	var s1w bytes.Buffer
+	if err := json.Indent(&s1w, s1.YAML(), "", "      "); err != nil {
+		s1w.Write(append(s1.YAML(), '\n', '\n'))
+	}
+	return map[string][]byte{"S0": s0.YAML(), "S1": s1.YAML(), "S2": s2.YAML(), "S3": s3.YAML(), "S1w": s1w.Bytes()}
 }
 
 func c19Events(specNames []string) []genrun.Step {
@@ -134,9 +147,9 @@ func c19Judge(after, fresh, userBefore genrun.Tree) []c19diff {
 func C19(run *report.Run) {
 	env := NewEnv(true)
 	defer env.Close()
-	specNames := []string{"S0", "S1"}
+	specNames := []string{"S0", "S1", "S3", "S1w"}
 	if run.Tier == "thorough" {
-		specNames = []string{"S0", "S1", "S2"}
+		specNames = []string{"S0", "S1", "S2", "S3", "S1w"}
 	}
 	events := c19Events(specNames)
 	// the banner flag: the same events without the DO NOT EDIT header (files are goag's either way)
